@@ -502,7 +502,7 @@ func (g *caseGen) one() {
 	case k < 95:
 		q := g.relatedQ()
 		g.qs = append(g.qs, q)
-		g.out("fail sset %s %s %d", q, vlib.Pick(r, []string{"useful", "nxdomain", "servfail", "refused", "other"}), g.step())
+		g.out("fail sset %s %s %d", q, vlib.Pick(r, []string{"useful", "nxdomain", "nodata", "servfail", "refused", "other"}), g.step())
 	case k < 96:
 		if r.Bool() {
 			g.recovery()
@@ -676,6 +676,11 @@ func (g *caseGen) recovery() {
 	q.scope = vlib.Pick(r, []string{"-", "4:cb007100/24", "4:cb007105/24", "4:0a010000/16", "4:0a000000/8", "6:20010db8000000000000000000000000/32", "6:20010db8aaaa00000000000000000001/48"})
 	g.qs = append(g.qs, q)
 	viaServe := r.Chance(2, 3)
+	viaStore := !viaServe && r.Bool() // the resolver-private sub-query route: Store.SetFromResponse only
+	if viaStore {
+		q.scope = "-"
+		q.t = vlib.Pick(r, []int{43, 48, 1})
+	}
 	rs := vlib.Pick(r, []int{-1, 0, 0, 8, 16, 24, 32, 48})
 	fail := func() {
 		out := vlib.Pick(r, []string{"servfail", "servfail", "refused"})
@@ -684,6 +689,8 @@ func (g *caseGen) recovery() {
 			g.out("fail eserve %s %d %s %d", q, g.t, out, rs)
 		case viaServe:
 			g.out("fail serve %s %d %d %s %s %d %s", hexName(q.name), q.t, q.c, vlib.B(q.cd), vlib.B(r.Bool()), g.t, out)
+		case viaStore:
+			g.out("fail sset %s %s %d", q, out, g.t)
 		default:
 			g.out("fail write - none %s %d %d %s", q, g.t, r.Intn(3), out)
 		}
@@ -695,6 +702,8 @@ func (g *caseGen) recovery() {
 			g.out("fail eserve %s %d %s %d", q, g.t, out, rs)
 		case viaServe:
 			g.out("fail serve %s %d %d %s %s %d %s", hexName(q.name), q.t, q.c, vlib.B(q.cd), vlib.B(r.Bool()), g.t, out)
+		case viaStore:
+			g.out("fail sset %s %s %d", q, vlib.Pick(r, []string{"useful", "nxdomain", "nodata", "nodata"}), g.t)
 		default:
 			g.out("fail write - none %s %d 0 %s", q, g.t, out)
 		}
@@ -979,6 +988,23 @@ func genL3(r *vlib.R, tier string, emit func(string), n *int) {
 	// a first tree runs out of budget while collecting NS addresses; the next one must not inherit a truncated delegation
 	emit(fmt.Sprintf("fail l3trunc %d %d", 3+r.Intn(2), 4))
 	*n--
+	// the detached IPv6 NS-address job is optional enrichment under every accounting mode
+	if tier == "thorough" {
+		for _, m := range []string{"off", "shadow", "enforce"} {
+			emit(fmt.Sprintf("fail l3v6 %s %s", m, vlib.Pick(r, []string{"servfail", "refused"})))
+			*n--
+		}
+	} else {
+		emit(fmt.Sprintf("fail l3v6 %s %s", vlib.Pick(r, []string{"off", "off", "shadow", "enforce"}), vlib.Pick(r, []string{"servfail", "refused"})))
+		*n--
+	}
+	emit(fmt.Sprintf("fail nss6 %s %d", vlib.B(r.Chance(1, 3)), 1+r.Intn(3))) // mostly without a ledger (accounting off)
+	*n--
+	if tier == "thorough" {
+		emit("fail nss6 t 2")
+		emit("fail nss6 f 2")
+		*n -= 2
+	}
 	emit("fail l3zone s,r,s,s 0") // control: every server fails, the zone failure may be recorded
 	emit(fmt.Sprintf("fail l3zone f,%s,%s 0", vlib.Pick(r, fails), vlib.Pick(r, fails)))
 	*n -= 2
